@@ -343,9 +343,12 @@ def workflows(ctx, env, g1):
         rule="one case per (S, T, value); non-trivial always (both task bodies run)",
         exhaustive=False,
     )
+    from pydra.utils.hash import hash_function
+
     cache = tempfile.mkdtemp(prefix="vf_c21wf_")
+    unhashable = 0
     try:
-        for S, T in pairs:
+        for i, (S, T) in enumerate(pairs):
             vals = _clean_values(S, T, env)
             if not vals:
                 continue
@@ -357,7 +360,15 @@ def workflows(ctx, env, g1):
             except Exception:  # noqa: BLE001  (already reported by the pair domains)
                 continue
             try:
-                out = run_workflow(S, T, v, cache)
+                hash_function(v)
+                hash_function(expected)
+            except Exception:  # noqa: BLE001  pydra cannot hash this value (e.g. dict with File keys): a hashing matter, not run
+                unhashable += 1
+                continue
+            try:
+                # a fresh cache root per workflow: the workflow classes differ only in what their
+                # constructor closes over, which pydra's function hash does not see
+                out = run_workflow(S, T, v, os.path.join(cache, f"w{i}"))
             except Exception as e:  # noqa: BLE001
                 ctx.fail(
                     None,
@@ -375,6 +386,8 @@ def workflows(ctx, env, g1):
                 )
     finally:
         shutil.rmtree(cache, ignore_errors=True)
+    if unhashable:
+        ctx.note(f"workflow sample: {unhashable} picked values that pydra's hash_function cannot hash were counted but not executed")
 
 
 def replay(rec):
